@@ -63,11 +63,16 @@ vars  == <<cfgv, reg, ctlv, calls, faults, respv>>
 
 N == Len(shape)
 
-Defaults == << [cls |-> "Exception",  beh |-> "def500"],
-               [cls |-> "HTTPError",  beh |-> "defErr"],
-               [cls |-> "HTTPStatus", beh |-> "defStatus"] >>
+(* A registration is [cls, beh, obj]: obj identifies the handler *object* (the number of the registration
+   that first used it).  The same object may be registered again for other classes (AddSame; also what a
+   tuple registration does); what the application can tell apart is which object ran. *)
+Defaults == << [cls |-> "Exception",  beh |-> "def500",    obj |-> 1],
+               [cls |-> "HTTPError",  beh |-> "defErr",    obj |-> 2],
+               [cls |-> "HTTPStatus", beh |-> "defStatus", obj |-> 3] >>
+WithObjs(r) == [j \in 1..Len(r) |-> [cls |-> r[j].cls, beh |-> r[j].beh, obj |-> Len(Defaults) + j]]
 
-SetStatus(h)     == 460 + h     \* status a "set" handler (registration h) puts on the response
+SetStatus(o)     == 460 + o     \* status a "set" handler (handler object o) puts on the response
+DraftStatus(o)   == IF o % 2 = 0 THEN 302 ELSE 202   \* text-less HTTPFound / HTTPStatus a "draftst" handler raises
 HandlerErrStatus == 409         \* status of the HTTPError an "http" handler raises
 HandlerStStatus  == 203         \* status of the HTTPStatus a "status" handler raises
 
@@ -81,7 +86,7 @@ Idx == Len(calls) + 1            \* the index the call being made will have
 Init == /\ shape \in Stacks /\ indep \in Indeps /\ target \in Targets
         /\ nb \in (IF target = "routed" THEN 0..MaxHooks ELSE {0})
         /\ na \in (IF target = "routed" THEN 0..MaxHooks ELSE {0})
-        /\ reg \in {Defaults \o r : r \in InitRegs}
+        /\ reg \in {Defaults \o WithObjs(r) : r \in InitRegs}
         /\ phase = "setup" /\ i = 1 /\ complete = FALSE /\ succeeded = FALSE /\ hasres = FALSE
         /\ dep = <<>> /\ left = <<>> /\ pend = NoPend
         /\ nreq = 1 /\ calls = <<>> /\ faults = 0
@@ -90,7 +95,14 @@ Init == /\ shape \in Stacks /\ indep \in Indeps /\ target \in Targets
 (* ------------------------------ assembly ------------------------------ *)
 AddHandler(cls, beh) ==
     /\ phase = "setup" /\ Len(reg) < Len(Defaults) + MaxRegs
-    /\ reg' = Append(reg, [cls |-> cls, beh |-> beh])
+    /\ reg' = Append(reg, [cls |-> cls, beh |-> beh, obj |-> Len(reg) + 1])
+    /\ UNCHANGED <<cfgv, ctlv, calls, faults, respv>>
+
+(* the handler object of registration k is registered for cls as well (again, or as part of a tuple) *)
+AddSame(cls, k) ==
+    /\ phase = "setup" /\ Len(reg) < Len(Defaults) + MaxRegs
+    /\ k \in (Len(Defaults) + 1)..Len(reg) /\ reg[k].obj = k
+    /\ reg' = Append(reg, [cls |-> cls, beh |-> reg[k].beh, obj |-> k])
     /\ UNCHANGED <<cfgv, ctlv, calls, faults, respv>>
 
 Start == /\ phase = "setup" /\ phase' = "req"
@@ -294,14 +306,18 @@ Effect(h) ==
     IN  CASE beh = "def500"    -> r(500, [k |-> "e500", id |-> 0], hdrs, vary \cup {0}, FALSE)
           [] beh = "defErr"    -> r(StatusOf[pend.cls], [k |-> "err", id |-> pend.idx], hdrs \cup {pend.idx}, own \cup {0}, FALSE)
           [] beh = "defStatus" -> r(StatusOf[pend.cls], [k |-> "stext", id |-> pend.idx], hdrs \cup {pend.idx}, own, FALSE)
-          [] beh = "set"       -> r(SetStatus(h), [k |-> "hset", id |-> Idx], hdrs, vary, FALSE)
-          [] beh = "setbad"    -> r(SetStatus(h), [k |-> "hbad", id |-> Idx], hdrs, vary, FALSE)
+          [] beh = "set"       -> r(SetStatus(reg[h].obj), [k |-> "hset", id |-> Idx], hdrs, vary, FALSE)
+          [] beh = "setbad"    -> r(SetStatus(reg[h].obj), [k |-> "hbad", id |-> Idx], hdrs, vary, FALSE)
+          \* the handler first drafts a body (as "set" does) and then raises: what it raised is rendered, the draft is not
+          [] beh = "draftst"   -> r(DraftStatus(reg[h].obj), IF WrongDesign = "status_keeps_draft" THEN [k |-> "hset", id |-> Idx] ELSE NoBody,
+                                    hdrs \cup {Idx}, vary, FALSE)
+          [] beh = "drafterr"  -> r(HandlerErrStatus, [k |-> "err", id |-> Idx], hdrs \cup {Idx}, vary \cup {0}, FALSE)
           [] beh = "noop"      -> r(status, b0, hdrs, vary, FALSE)
           [] beh = "http"      -> r(HandlerErrStatus, [k |-> "err", id |-> Idx], hdrs \cup {Idx}, vary \cup {0}, FALSE)
           [] beh = "status"    -> r(HandlerStStatus, [k |-> "stext", id |-> Idx], hdrs \cup {Idx}, vary, FALSE)
           [] beh = "other"     -> r(status, b0, hdrs, vary, TRUE)     \* propagates: outside the property's promise
 
-HandlerAct(beh) == IF beh \in {"http", "status", "other"} THEN "raise" ELSE "ret"
+HandlerAct(beh) == IF beh \in {"http", "status", "other", "draftst", "drafterr"} THEN "raise" ELSE "ret"
 
 HandleCall ==
     /\ phase = "handle"
@@ -326,6 +342,7 @@ ActCls(acts) == {<<a, "">> : a \in acts \ {"raise"}} \cup
                 (IF "raise" \in acts THEN {<<"raise", c>> : c \in RaiseClasses} ELSE {})
 
 Next == \/ \E c \in RegClasses, b \in RegBehs : AddHandler(c, b)
+        \/ \E c \in RegClasses, k \in 1..Len(reg) : AddSame(c, k)
         \/ Start
         \/ \E p \in ActCls({"ret", "complete", "raise"}) : ReqCall(p[1], p[2]) \/ RsrcCall(p[1], p[2])
         \/ \E p \in ActCls({"ret", "raise"}) : BeforeCall(p[1], p[2]) \/ ResponderCall(p[1], p[2])
@@ -344,7 +361,8 @@ RaisedBefore(k) == \E j \in 1..(k - 1) : K(j).act = "raise"
 Finished == phase = "end" /\ ~escaped
 
 (* What application code can see: the framework's own not-found responder and its three default
-   handlers are not application call sites.  ObsIdx numbers the visible calls (0: not visible). *)
+   handlers are not application call sites.  ObsIdx numbers the visible calls (0: not visible).
+   Handler calls are logged with the registration chosen (K(k).c); the application sees its object reg[c].obj. *)
 Observable(c) == c.site # "notfound" /\ ~(c.site = "handler" /\ c.c <= Len(Defaults))
 ObsIdx(k) == IF k < 1 \/ k > Len(calls) THEN 0
              ELSE IF ~Observable(calls[k]) THEN 0
@@ -407,7 +425,12 @@ HandlerRaisedErrorIsRendered ==
     /\ JustHandled /\ reg[LastCall.c].beh = "status"
           => status = HandlerStStatus /\ body = [k |-> "stext", id |-> Len(calls)] /\ Len(calls) \in hdrs
     /\ JustHandled /\ reg[LastCall.c].beh = "set"
-          => status = SetStatus(LastCall.c) /\ body = [k |-> "hset", id |-> Len(calls)]
+          => status = SetStatus(reg[LastCall.c].obj) /\ body = [k |-> "hset", id |-> Len(calls)]
+    \* RenderedFromTheStatus: a status raised by a handler is rendered from the status alone, whatever the handler drafted
+    /\ JustHandled /\ reg[LastCall.c].beh = "draftst"
+          => status = DraftStatus(reg[LastCall.c].obj) /\ body = NoBody /\ Len(calls) \in hdrs
+    /\ JustHandled /\ reg[LastCall.c].beh = "drafterr"
+          => status = HandlerErrStatus /\ body = [k |-> "err", id |-> Len(calls)] /\ Len(calls) \in hdrs /\ 0 \in vary
 DefaultRendering ==
     /\ JustHandled /\ reg[LastCall.c].beh = "defErr"
           => status = StatusOf[LastCall.cls] /\ body = [k |-> "err", id |-> LastCall.x] /\ LastCall.x \in hdrs /\ 0 \in vary
